@@ -46,6 +46,11 @@ fn main() {
     if args.len() < 2 {
         usage();
     }
+    if args[1] == "store-child" {
+        // Hidden sub-command of the `store` world: runs a segment of store operations against a
+        // RocksDB directory (job on stdin) and kills itself with SIGKILL.
+        worlds::store::child_main();
+    }
     let seed = runner::env_seed();
     match args[1].as_str() {
         "check" => {
